@@ -87,7 +87,7 @@ def flat_structure(m):
         if isinstance(x, base.RawTokenModel):
             n = type(x).__name__
             if n in ('Whitespace', 'Newline', 'Eol', 'Indent', 'DedentMark', 'Placeholder', 'Comma'): return None
-            if n == 'BlockComment': comments.extend(x.value.split('\n')); return None      # adjacent comment blocks lex as one block: compare line by line
+            if n == 'BlockComment': comments.extend(l_.rstrip('\r') for l_ in x.value.split('\n')); return None      # adjacent comment blocks lex as one block (the document's line terminator between them then sits inside the merged value): compare line by line, CR at line ends aside
             if n == 'InlineComment': return ('InlineComment', x.raw_text.rstrip())
             return (n, x.raw_text)
         kids = [go(c) for c in real_children(x)]
